@@ -26,7 +26,8 @@ Record built := {
   b_recs : list (key * key);        (* (start, dest) pairs *)
   b_synth : list key;
   b_input : key;
-  b_output : key
+  b_output : key;
+  b_pop : list nat                  (* traversal (validation) order *)
 }.
 
 Definition visit (m : nat) (st : list nat * list nat) : list nat * list nat :=
@@ -36,7 +37,8 @@ Definition visit (m : nat) (st : list nat * list nat) : list nat * list nat :=
 Definition map_add (m : nat) (l : list nat) : list nat := add_set Nat.eqb m l.
 
 Record bstate := { bs_g : graph; bs_map : list nat; bs_recs : list (key * key); bs_synth : list key;
-                   bs_sv : list nat * list nat }.
+                   bs_sv : list nat * list nat;      (* (stack, visited) *)
+                   bs_pop : list nat }.               (* nodes in the order they were popped and validated *)
 
 Definition set_kw (p : pname) (a : eattr) : eattr :=
   {| ea_kwarg := Some p; ea_is_switch := ea_is_switch a; ea_case := ea_case a |}.
@@ -52,7 +54,7 @@ Definition apply_mark (inp cur : nat) (idx : nat) (p : pname) (mk : mark) (b : b
                                            na_cands := na_cands a; na_start := Some (KN s); na_maxit := Some mx |}) (bs_g b) in
     let g2 := add_edge (KN d) (KN cur) (set_kw p) g1 in
     {| bs_g := g2; bs_map := map_add d (bs_map b); bs_recs := bs_recs b ++ [(KN s, KN d)];
-       bs_synth := bs_synth b; bs_sv := visit d (bs_sv b) |}
+       bs_synth := bs_synth b; bs_sv := visit d (bs_sv b); bs_pop := bs_pop b |}
   | MOneOf cs =>
     let h := KOo cur idx in
     let g1 := add_node h (fun a => {| na_switch := na_switch a; na_head := true; na_child := na_child a;
@@ -65,10 +67,10 @@ Definition apply_mark (inp cur : nat) (idx : nat) (p : pname) (mk : mark) (b : b
         (add_edge (KN c) h (fun a => a) g', map_add c mp, visit c sv) in
     let '(g3, mp3, sv3) := fold_left step cs (g2, bs_map b, bs_sv b) in
     let g4 := add_edge h (KN cur) (set_kw p) g3 in
-    {| bs_g := g4; bs_map := mp3; bs_recs := bs_recs b; bs_synth := bs_synth b ++ [h]; bs_sv := sv3 |}
+    {| bs_g := g4; bs_map := mp3; bs_recs := bs_recs b; bs_synth := bs_synth b ++ [h]; bs_sv := sv3; bs_pop := bs_pop b |}
   | MIn m =>
     {| bs_g := add_edge (KN m) (KN cur) (set_kw p) (bs_g b); bs_map := map_add m (bs_map b);
-       bs_recs := bs_recs b; bs_synth := bs_synth b; bs_sv := visit m (bs_sv b) |}
+       bs_recs := bs_recs b; bs_synth := bs_synth b; bs_sv := visit m (bs_sv b); bs_pop := bs_pop b |}
   | MSw d cases =>
     let sw := KSw cur idx in
     let g1 := add_node sw (fun a => {| na_switch := true; na_head := na_head a; na_child := na_child a;
@@ -79,7 +81,7 @@ Definition apply_mark (inp cur : nat) (idx : nat) (p : pname) (mk : mark) (b : b
         (add_edge (KN (snd lc)) sw (set_case (fst lc)) g, map_add (snd lc) mp, visit (snd lc) sv) in
     let '(g3, mp3, sv3) := fold_left step cases (g2, map_add d (bs_map b), visit d (bs_sv b)) in
     let g4 := add_edge sw (KN cur) (set_kw p) g3 in
-    {| bs_g := g4; bs_map := mp3; bs_recs := bs_recs b; bs_synth := bs_synth b ++ [sw]; bs_sv := sv3 |}
+    {| bs_g := g4; bs_map := mp3; bs_recs := bs_recs b; bs_synth := bs_synth b ++ [sw]; bs_sv := sv3; bs_pop := bs_pop b |}
   end.
 
 Fixpoint apply_marks (inp cur idx : nat) (ps : list (pname * mark)) (b : bstate) : bstate :=
@@ -91,11 +93,12 @@ Fixpoint apply_marks (inp cur idx : nat) (ps : list (pname * mark)) (b : bstate)
 Definition visit_node (ds : decls) (inp cur : nat) (b : bstate) : bstate :=
   let params := match nth_opt ds cur with Some nd => ns_params nd | None => [] end in
   let b1 := {| bs_g := bs_g b; bs_map := map_add cur (bs_map b); bs_recs := bs_recs b; bs_synth := bs_synth b;
-               bs_sv := bs_sv b |} in
+               bs_sv := bs_sv b; bs_pop := bs_pop b |} in
   let b2 := match params with
             | [] => if Nat.eqb inp cur then b1
                     else {| bs_g := add_edge (KN inp) (KN cur) (fun a => a) (bs_g b1); bs_map := bs_map b1;
-                            bs_recs := bs_recs b1; bs_synth := bs_synth b1; bs_sv := visit inp (bs_sv b1) |}
+                            bs_recs := bs_recs b1; bs_synth := bs_synth b1; bs_sv := visit inp (bs_sv b1);
+                            bs_pop := bs_pop b1 |}
             | _ => b1
             end in
   apply_marks inp cur 0 params b2.
@@ -109,16 +112,16 @@ Fixpoint build_loop (fuel : nat) (ds : decls) (inp : nat) (b : bstate) : bstate 
     | [] => b
     | cur :: rest =>
       let b' := {| bs_g := bs_g b; bs_map := bs_map b; bs_recs := bs_recs b; bs_synth := bs_synth b;
-                   bs_sv := (rest, snd (bs_sv b)) |} in
+                   bs_sv := (rest, snd (bs_sv b)); bs_pop := bs_pop b ++ [cur] |} in
       build_loop f ds inp (visit_node ds inp cur b')
     end
   end.
 
 Definition build (ds : decls) (inp out : nat) : built :=
-  let b0 := {| bs_g := graph0; bs_map := [inp]; bs_recs := []; bs_synth := []; bs_sv := ([out], [out]) |} in
+  let b0 := {| bs_g := graph0; bs_map := [inp]; bs_recs := []; bs_synth := []; bs_sv := ([out], [out]); bs_pop := [] |} in
   let b := if Nat.eqb inp out
            then {| bs_g := touch_node (KN inp) graph0; bs_map := [inp]; bs_recs := []; bs_synth := [];
-                   bs_sv := ([], []) |}
+                   bs_sv := ([], []); bs_pop := [] |}
            else build_loop (S (length ds)) ds inp b0 in
   {| b_graph := bs_g b; b_map := bs_map b; b_recs := bs_recs b; b_synth := bs_synth b;
-     b_input := KN inp; b_output := KN out |}.
+     b_input := KN inp; b_output := KN out; b_pop := bs_pop b |}.
